@@ -81,6 +81,21 @@ Theorem C15_state_fits_uint64 : forall v W b12 h,
 Proof. intros v W b12 h H. exact (rp_run_range v W b12 h rp_init H rp_init_range). Qed.
 Print Assumptions C15_state_fits_uint64.
 
+(* the recipient's own Sender Key is never used twice with the same AEAD nonce for the replies
+   it protects (RFC 8613 5.2), whatever requests arrive in whatever multiplicity: the request's
+   nonce is used only for the response to an accepted request, the Appendix B.1.2 Echo
+   challenge - which the same request can trigger again - gets a Partial IV of its own *)
+Theorem C15_reply_nonces_unique : forall W b12 h c,
+  NoDup (rp_reply_nonces true c h (fst (rp_run rp_fixed W b12 rp_init h))).
+Proof. exact rp_reply_nonces_unique. Qed.
+Print Assumptions C15_reply_nonces_unique.
+
+(* the other choice for the challenge is refuted by the same first request arriving twice *)
+Theorem C15_challenge_request_nonce_refuted :
+  exists h, ~ NoDup (rp_reply_nonces false 0 h (fst (rp_run rp_fixed 32 true rp_init h))).
+Proof. exact rp_challenge_request_nonce_refuted. Qed.
+Print Assumptions C15_challenge_request_nonce_refuted.
+
 (* ---- sender ---- *)
 
 (* the Partial IVs put on the wire over any sequence of protect and crash/restart steps (restart
